@@ -9,6 +9,7 @@
 //   - insertion of a foreign key at each index (sections with a fixed key set),
 //   - duplication of each existing key in three spellings,
 //   - removal of each mandatory key.
+//
 // The mutant is parsed with actionlint.Parse; the property oracle compares its
 // syntax-check diagnostics with those of the original (demanded new diagnostic
 // present at the demanded node; diagnostics of all other nodes still there).
@@ -1130,6 +1131,7 @@ func main() {
 		}
 	}
 	r.nonASCIIDuplicates()
+	r.flowSiblings()
 	for _, f := range r.fails {
 		r.sum.OracleFails = append(r.sum.OracleFails, f)
 	}
@@ -1235,6 +1237,86 @@ jobs:
 	}
 }
 
+// flowSiblings: sibling keys written on ONE line (flow style) are reported each at its own key:
+// two foreign keys, a repetition next to a foreign key, an empty value next to a foreign key.
+// manyDiagnostics: a file with more diagnostics than any fixed budget keeps every one of them.
+func (r *runner) flowSiblings() {
+	type tc struct{ name, src string }
+	wrap := func(top, job, step string) string {
+		s := "on: push\n" + top + "jobs:\n  j:\n    runs-on: ubuntu-latest\n" + job + "    steps:\n      - run: echo\n" + step
+		return s
+	}
+	cases := []tc{
+		{"concurrency", wrap("concurrency: {group: g, zzA: 1, zzB: 2}\n", "", "")},
+		{"job concurrency", wrap("", "    concurrency: {group: g, zzA: 1, zzB: 2}\n", "")},
+		{"environment", wrap("", "    environment: {name: n, zzA: 1, zzB: 2}\n", "")},
+		{"environment, empty name first", wrap("", "    environment: {name: '', zzA: 1, zzB: 2}\n", "")},
+		{"defaults.run", wrap("defaults: {run: {shell: bash, zzA: 1, zzB: 2}}\n", "", "")},
+		{"container", wrap("", "    container: {image: x, zzA: 1, zzB: 2}\n", "")},
+		{"credentials", wrap("", "    container: {image: x, credentials: {username: u, password: p, zzA: 1, zzB: 2}}\n", "")},
+		{"strategy", wrap("", "    strategy: {matrix: {a: [1]}, zzA: 1, zzB: 2}\n", "")},
+		{"step", wrap("", "", "      - {run: echo, zzA: 1, zzB: 2}\n")},
+		{"step after a repetition", wrap("", "", "      - {run: echo, name: a, name: b, zzA: 1, zzB: 2}\n")},
+		{"push filter", "on: {push: {branches: [main], zzA: 1, zzB: 2}}\njobs:\n  j:\n    runs-on: ubuntu-latest\n    steps:\n      - run: echo\n"},
+		{"workflow_call input", "on: {workflow_call: {inputs: {i: {type: string, zzA: 1, zzB: 2}}}}\njobs:\n  j:\n    runs-on: ubuntu-latest\n    steps:\n      - run: echo\n"},
+		{"workflow_call secret", "on: {workflow_call: {secrets: {s: {required: true, zzA: 1, zzB: 2}}}}\njobs:\n  j:\n    runs-on: ubuntu-latest\n    steps:\n      - run: echo\n"},
+		{"job", "on: push\njobs:\n  j: {runs-on: ubuntu-latest, steps: [{run: echo}], zzA: 1, zzB: 2}\n"},
+		{"top level", "{on: push, zzA: 1, zzB: 2, jobs: {j: {runs-on: ubuntu-latest, steps: [{run: echo}]}}}\n"},
+	}
+	for _, c := range cases {
+		res := runParse([]byte(c.src))
+		r.sum.Evaluations++
+		r.sum.Dist["flow_sibling_workflows"]++
+		var missing []string
+		for i, ln := range strings.Split(c.src, "\n") {
+			for _, k := range []string{"zzA", "zzB"} {
+				at := strings.Index(ln, k+":")
+				if at < 0 {
+					continue
+				}
+				found := false
+				for _, d := range res.diags {
+					if d.Code == 1 && d.Line == i+1 && d.Col == at+1 {
+						found = true
+					}
+				}
+				if !found {
+					missing = append(missing, fmt.Sprintf("%s at %d:%d", k, i+1, at+1))
+				}
+			}
+		}
+		if len(missing) > 0 || res.panic != "" {
+			r.fails = append(r.fails, failure{What: "foreign keys written on one line (flow style) are not reported each at its own key", Key: "flow-siblings|" + c.name,
+				File: "generated", Original: c.src, Mutant: c.src, Detail: map[string]interface{}{"not_reported": missing, "got": res.diags, "panic": res.panic}})
+		}
+	}
+	// more diagnostics than any fixed budget: n jobs, each with a foreign key and without steps
+	for _, n := range []int{40, 70, 200, 600} {
+		var b strings.Builder
+		b.WriteString("on: push\njobs:\n")
+		for i := 0; i < n; i++ {
+			fmt.Fprintf(&b, "  j%d:\n    runs-on: ubuntu-latest\n    zz-foreign-key: 1\n", i)
+		}
+		src := b.String()
+		res := runParse([]byte(src))
+		r.sum.Evaluations++
+		r.sum.Dist["many_diagnostics_workflows"]++
+		nf, nm := 0, 0
+		for _, d := range res.diags {
+			if d.Code == 1 {
+				nf++
+			}
+			if d.Code == 43 {
+				nm++
+			}
+		}
+		if nf != n || nm != n || res.panic != "" {
+			r.fails = append(r.fails, failure{What: fmt.Sprintf("%d jobs, each with a foreign key and without steps: %d foreign-key and %d missing-steps diagnostics (every one of the %d + %d is demanded)", n, nf, nm, n, n),
+				Key: fmt.Sprintf("many-diagnostics|%d", n), File: "generated", Original: src, Mutant: src, Detail: map[string]interface{}{"panic": res.panic}})
+		}
+	}
+}
+
 func doReplay(path string) int {
 	b, err := os.ReadFile(path)
 	hx.Must(err)
@@ -1253,6 +1335,22 @@ func doReplay(path string) int {
 			}
 		}
 		return 1
+	}
+	if strings.HasPrefix(f.Key, "flow-siblings|") || strings.HasPrefix(f.Key, "many-diagnostics|") {
+		r := &runner{sum: hx.NewSummary("C13"), unknownMsg: map[string]bool{}, nontrivial: map[string]bool{}, perSection: map[string]int{}, second: map[string]bool{}}
+		r.flowSiblings()
+		for _, g := range r.fails {
+			if g.Key == f.Key {
+				o := g.Original
+				if len(o) > 2000 {
+					o = o[:2000]
+				}
+				fmt.Printf("REPRODUCED: %s %v\n%s", g.What, g.Detail, o)
+				return 1
+			}
+		}
+		fmt.Println("not reproduced on this tree")
+		return 0
 	}
 	if strings.HasPrefix(f.Key, "non-ascii-duplicate|") {
 		r := &runner{sum: hx.NewSummary("C13"), unknownMsg: map[string]bool{}, nontrivial: map[string]bool{}, perSection: map[string]int{}, second: map[string]bool{}}
